@@ -52,15 +52,24 @@ func c10Run(r *zsim.Run) {
 	keys := []string{"a", "b", "c", "d"}
 	var fired []c10Fire
 	tickOf := func() int { return int(r.Now() / interval) }
+	// some runs have slow callbacks: the tasks of one tick run one after the other in their own goroutine, so a slow
+	// one delays the rest of its batch (they then fire late, which is accepted in these runs) while the wheel ticks on
+	slowCb := !long && o.Intn(4) == 0
+	// some runs do not wait for the wheel to digest an operation before issuing the next one
+	eager := !long && o.Intn(3) == 0
 	tw, err := NewTimingWheel(interval, slots, func(k, v any) {
 		fired = append(fired, c10Fire{k.(string), v.(int), tickOf(), false})
 		r.Logf("fire %v=%v tick %d", k, v, tickOf())
+		if slowCb && o.Intn(2) == 0 {
+			zsim.Sleep(zsim.Pick(o, interval/2, interval, 3*interval))
+		}
 	})
 	if err != nil {
 		r.Failf("constructor", "NewTimingWheel(%v,%d): %v", interval, slots, err)
 		return
 	}
-	r.Logf("wheel slots=%d interval=%v ops=%d long=%v", slots, interval, nops, long)
+	r.Logf("wheel slots=%d interval=%v ops=%d long=%v slow-callbacks=%v eager=%v", slots, interval, nops, long, slowCb, eager)
+	c10Slow = slowCb
 	model := map[string]*c10Pending{}
 	var expect []c10Fire // what must fire, in the model
 	removedEver := map[string][]c10Removed{}
@@ -178,8 +187,11 @@ func c10Run(r *zsim.Run) {
 				return
 			}
 		}
-		r.Quiesce()
+		if !eager || o.Intn(2) == 0 {
+			r.Quiesce()
+		}
 	}
+	r.Quiesce()
 	// ending
 	ending := o.Intn(4)
 	if long {
@@ -225,8 +237,15 @@ func c10Run(r *zsim.Run) {
 	// that a late firing is seen, not missed)
 	if !stopped {
 		advance(maxDue - tickOf() + 2*slots + 3)
+		if slowCb {
+			zsim.Sleep(40 * interval) // delayed batches finish
+			r.Quiesce()
+		}
 	} else {
 		zsim.Sleep(time.Duration(2*slots+3) * interval)
+		if slowCb {
+			zsim.Sleep(40 * interval) // delayed batches finish
+		}
 		r.Quiesce()
 	}
 	if ending != 2 {
@@ -236,6 +255,8 @@ func c10Run(r *zsim.Run) {
 }
 
 type c10Removed struct{ val, at, due int }
+
+var c10Slow bool // this run has slow callbacks (late firing of the rest of a batch is accepted)
 
 func c10Compare(r *zsim.Run, expect, fired []c10Fire, removedEver map[string][]c10Removed, stopped bool) {
 	type kv struct {
@@ -282,7 +303,7 @@ func c10Compare(r *zsim.Run, expect, fired []c10Fire, removedEver map[string][]c
 			}
 			return
 		}
-		if !f.drain && f.tick != e.tick {
+		if !f.drain && f.tick != e.tick && !(c10Slow && f.tick > e.tick) {
 			cls := "fired-late"
 			if f.tick < e.tick {
 				cls = "fired-early"
